@@ -538,6 +538,12 @@ class OfdmOneTapEqualizer:
 
         data_reshaped = np.reshape(data, (-1, num_used_subcarriers))
 
+        if num_ofdm_symbols == 0:
+            # No OFDM symbol to equalize: an empty input gives an empty
+            # output (the frequency response cannot be reshaped to zero
+            # OFDM symbols below).
+            return data_reshaped.flatten()
+
         freq_response = impulse_response.get_freq_response(fft_size)
 
         # Reshape and get the average frequency response for all samples in
